@@ -706,6 +706,11 @@ def _judge_apply(mon, st, case, x0, params, lens, out, taps, where, order):
         src, flow, glens, gT, gorder, grid = tcall
         if gT != T or tuple(grid.shape) != (N, T) or _numel(src) != N or _numel(flow) != N:
             mon.stat("unjudged:time-grid-layout")
+            if used is not None and order == 1 and _numel(w_0) == N and _numel(w) == N:
+                # however the grid was put together: what the resampler is handed decides which frames are read
+                for fi in sorted({0, F - 1}):
+                    _judge_grid_rows(mon, st, "handed-to-grid_sample[f=%d]" % fi, used[:, :, fi, 1],
+                                     w_0.reshape(-1), w.reshape(-1), lens, T, 1)
         elif gorder == 1:
             _judge_grid_rows(mon, st, "returned-by-warp_1d_grid", grid, src, flow, lens, T, gorder)
             if used is not None:
